@@ -479,6 +479,13 @@ def params(ctx, fn, flow):
     problems = 0
     for n in own_nodes(fn.node):
         if isinstance(n, (ast.ListComp, ast.GeneratorExp, ast.SetComp)):
+            # only comprehensions that iterate over the metafile's URL lists matter (a table of topics is not one)
+            def over_urls(e):
+                t_ = flow.term(e, fn)
+                return any(x[0] == "sub" and any(i[0] == "const" and i[1] in ("announce-list", "url-list", "announce", "httpseeds") for i in x[2]) for x in walk_terms(t_)) or \
+                    any(x[0] == "meth" and x[1] == "get" and len(x) > 3 and x[3] and any(i[0] == "const" and i[1] in ("announce-list", "url-list", "announce") for i in x[3][0]) for x in walk_terms(t_))
+            if not any(over_urls(gen.iter) for gen in n.generators):
+                continue
             if isinstance(n, ast.SetComp):
                 problems += 1
                 ctx.violated("C11.4", fn, "a set comprehension loses order / duplicates of URLs", n)
@@ -488,7 +495,7 @@ def params(ctx, fn, flow):
                     ctx.violated("C11.4", fn, "URLs are filtered before they reach the URI", n)
         elif isinstance(n, ast.Call):
             for d in C.ext_name(ctx, n, fn):
-                if d in REORDER:
+                if d in REORDER and n.args and any(x[0] == "ext" and x[1] == "pyben.load" for x in walk_terms(flow.term(n.args[0], fn))):
                     problems += 1
                     ctx.violated("C11.4", fn, "%s reorders or drops URLs on their way into the URI" % d, n)
         elif isinstance(n, ast.Subscript) and isinstance(n.slice, ast.Slice) and isinstance(n.ctx, ast.Load):
